@@ -1,6 +1,7 @@
 """C05 - configuration honoured exactly; only configured hooks referenced.
 Decided: every hook emission is dominated by its configuration gate; hook names come only from the
 configured replacement names; the namespace; prologue generation; documented defaults."""
+import re
 from .. import hir, gate, fmtargs, jsast
 from ..engine import AnchorMissing
 from ..prov import Prov, origin_str, return_exprs
@@ -704,6 +705,28 @@ def rule_prologue(check):
             src_ok = src is not None and (hir.place(src) or "").endswith(".methods") and elementwise and (how == "loop" or (chain[:1] == ["map"] and outer[:2] == ["collect", "join"]) or (chain[:1] == ["for_each"]))
             if how == "closure" and chain[:1] == ["for_each"]:
                 src_ok = (hir.place(src) or "").endswith(".methods") and all(m in ("for_each", "iter", "enumerate", "into_iter") for m in chain)
+            if how == "loop":
+                # ... and every element gets its entry: inside the loop the entry depends on nothing but the
+                # iteration itself (seed C05-prologue-key-dropped-when-substring-of-earlier: `continue` when the
+                # text built so far *contains* the name - `replace` after `replaceAll` lost its pass-through)
+                extra, seen_loop = [], False
+                for c_ in b_.conds_at(n):
+                    if c_["t"] == "loop":
+                        seen_loop = True
+                        continue
+                    if not seen_loop or c_["t"] == "closure":
+                        continue
+                    if c_["t"] == "pat" and ("Iterator::next" in hir.describe(c_.get("scrut") or {}) or "next" in hir.describe(c_.get("scrut") or {})):
+                        continue
+                    if c_["t"] == "bool":
+                        # exact-key de-duplication (a set of the names seen so far) drops only repeated keys
+                        e_ = hir.peel(c_["e"])
+                        while e_.get("k") == "Unary" and e_.get("op") in ("Not", "!"):
+                            e_ = hir.peel(e_["arg"] if "arg" in e_ else e_.get("e") or {})
+                        if e_.get("k") == "MethodCall" and e_.get("method") in ("insert", "contains") and re.search(r"\b(HashSet|BTreeSet|IndexSet)<", hir.peel(e_["recv"]).get("ty") or ""):
+                            continue
+                    extra.append(hir.cond_str(c_))
+                check.expect(not extra, R, R + "/every-method", hir.loc(n), "inside the loop the entry is unconditional", "some configured names get no pass-through in the prologue: the entry is additionally conditional on %s (the rewritten file calls `_ddiast.<name>` all the same)" % extra)
             check.expect(bool(src_ok), R, R + "/all-methods", hir.loc(n), "one entry per element of csi_methods.methods, in order (element-wise adapters only)", "prologue names are generated by %s over %s then %s" % (chain, hir.describe(src) if src else None, outer))
     check.expect(ok and n_entry == 1, R, R + "/dst-noop", hir.loc(g.rec), "each entry is `<dst>: noop`", "prologue entries are not `<dst>: noop`")
     tpl = prog.js.get("prologue_template")
